@@ -830,6 +830,12 @@ func init() {
 		"(*sync.RWMutex).Unlock": lockOp(false, false),
 		"(*sync.RWMutex).RLock":   lockOp(true, true),
 		"(*sync.RWMutex).RUnlock": lockOp(false, true),
+		"(*strings.Builder).WriteString": builderOp(0),
+		"(*strings.Builder).String":      builderOp(1),
+		"(*strings.Builder).Len":         builderOp(2),
+		"(*strings.Builder).Grow":        builderOp(3),
+		"(*strings.Builder).WriteByte":   builderOp(4),
+		"(*strings.Builder).WriteRune":   builderOp(5),
 		"(*sync.WaitGroup).Add":   wgOp(0),
 		"(*sync.WaitGroup).Done":  wgOp(1),
 		"(*sync.WaitGroup).Wait":  wgOp(2),
@@ -1123,6 +1129,69 @@ func lockOp(lock, read bool) handler {
 				panic(pathEnd{"cut"})
 			}
 			st.Mutex[k] = false
+		}
+		return TupleV{}
+	}
+}
+
+// builderOp: strings.Builder as a ghost string per builder object (the real one uses unsafe). Structured and concrete
+// pieces concatenate exactly; anything else makes the content opaque.
+func builderOp(kind int) handler {
+	return func(in *Interp, st *State, fr *Frame, fn *ssa.Function, args []Value) Value {
+		p, ok := args[0].(PtrV)
+		if !ok || p.Obj < 0 {
+			in.require(st, False, "nil strings.Builder")
+			panic(pathEnd{"panic"})
+		}
+		k := lockKey(p)
+		cur := st.Builders[k]
+		set := func(v StrV) {
+			nb := make(map[int]StrV, len(st.Builders)+1)
+			for kk, vv := range st.Builders {
+				nb[kk] = vv
+			}
+			nb[k] = v
+			st.Builders = nb
+		}
+		appendStr := func(add StrV) {
+			cp, ok1 := partsOf(cur)
+			ap, ok2 := partsOf(add)
+			if ok1 && ok2 {
+				set(normParts(append(append([]StrPart(nil), cp...), ap...)))
+				return
+			}
+			var fargs []Value
+			if cur.Fmt != nil && cur.Fmt.Format == "<builder>" {
+				fargs = append(fargs, cur.Fmt.Args...)
+			} else {
+				fargs = append(fargs, cur)
+			}
+			set(StrV{Fmt: &OpaqueFmt{Format: "<builder>", Args: append(fargs, add)}})
+		}
+		switch kind {
+		case 0:
+			add := args[1].(StrV)
+			appendStr(add)
+			if c, ok := concStr(add); ok {
+				return TupleV{IntC(int64(len(c))), IfaceV{}}
+			}
+			return TupleV{IntC(1), IfaceV{}}
+		case 1:
+			return cur
+		case 2:
+			c, ok := concStr(cur)
+			if !ok {
+				panic(unsupported("strings.Builder.Len of non-concrete content"))
+			}
+			return IntC(int64(len(c)))
+		case 3:
+			return TupleV{}
+		case 4:
+			appendStr(StrV{S: string(rune(constI64(args[1], "Builder.WriteByte")))})
+			return IfaceV{}
+		case 5:
+			appendStr(StrV{S: string(rune(constI64(args[1], "Builder.WriteRune")))})
+			return TupleV{IntC(1), IfaceV{}}
 		}
 		return TupleV{}
 	}
